@@ -510,7 +510,7 @@ def twin_history(ctx, hseed):
                     i = rng.randrange(len(A.history.undo_list))
                     op = ("selective_undo", i)
                     fn = lambda P: P.history.undo(P.history.undo_list[i])
-                elif k < 0.95 and files:
+                elif k < 0.93 and files:
                     path = rng.choice(files)
                     src = ("def f(a, b=1):\n    return (a, b)\n\nclass C:\n    def m(self, x):\n        return [x]\n\n"
                            "r1 = f(%d)\nr2 = f('s', b=C())\nr3 = C().m({1: {2: 'x'}})\n" % counter[0])
@@ -519,6 +519,19 @@ def twin_history(ctx, hseed):
                     def fn(P):
                         P.do(ch.ChangeContents(P.get_file(path), src))
                         P.pycore.analyze_module(P.get_file(path))
+                elif k < 0.985 and objdb_plain(A):
+                    # object information added to an EXISTING (possibly loaded) scope without a new call
+                    db = objdb_plain(A)
+                    path = rng.choice(sorted(db))
+                    if db[path]:
+                        key = rng.choice(sorted(db[path]))
+                        name = fresh("pn")
+                        value = rng.choice([("builtin", "str"), ("builtin", "list", ("builtin", "str")), ("unknown",)])
+                        op = ("add_pername", path, key, name, value)
+                        fn = lambda P: P.pycore.object_info.objectdb.add_pername(path, key, name, value)
+                    else:
+                        op = ("sync",)
+                        fn = lambda P: P.sync()
                 else:
                     op = ("sync",)
                     fn = lambda P: P.sync()
